@@ -10,6 +10,7 @@ import (
 	"golang.org/x/tools/go/ssa"
 
 	"bdcheck/internal/ir"
+	"bdcheck/internal/load"
 )
 
 const dagRel = "internal/dag"
@@ -792,6 +793,13 @@ func (c *c13) submatch() {
 			pat := ""
 			if rc, ok := ir.Resolve(ci.Common().Args[0]).(*ssa.Call); ok && ir.IsCallTo(&rc.Call, "regexp.MustCompile") {
 				pat, _ = ir.ConstString(rc.Call.Args[0])
+			}
+			// a pattern compiled once into a package-level variable
+			if u, ok := ci.Common().Args[0].(*ssa.UnOp); ok && pat == "" {
+				if g, ok := u.X.(*ssa.Global); ok && g.Pkg != nil {
+					rel := strings.TrimPrefix(g.Pkg.Pkg.Path(), load.ModulePath+"/")
+					pat, _ = e.globalRegexp(rel, g.Name())
+				}
 			}
 			if pat == "" {
 				r.Unknown(shortName(f)+": pattern of the submatch call", e.InstrPos(ci), "not a constant")
